@@ -1,23 +1,29 @@
 #!/bin/bash
 # evalbenign.sh <dir with patch.diff> <id>
-# A behaviour-preserving change: apply it to /repo's working tree, run the repository's suite and
-# every claimed quick check; every one must exit 0 (no alarm on code where the properties hold).
+# A behaviour-preserving change: apply it to a scratch worktree of /repo's HEAD, run the repository's
+# suite there and every claimed quick check against that tree (VERIF_REPO); every one must exit 0
+# (no alarm on code where the properties hold). /repo itself is not touched, so this can run while
+# other checks use /repo.
 set -u
 export GOFLAGS=-mod=mod GOPROXY=off GOSUMDB=off GOTOOLCHAIN=local
 src="$1"; id="$2"
 out="/verif/benign/$id"
-git -C /repo diff --quiet || { echo "tree not clean"; exit 2; }
-git -C /repo apply "$src/patch.diff" || { echo "BENIGN-REJECT $id: patch does not apply"; exit 3; }
-trap 'git -C /repo checkout -- . ; git -C /repo clean -fdq' EXIT
-(cd /repo && go test -count=1 ./... >/tmp/benign-suite.log 2>&1) || { echo "BENIGN-REJECT $id: repository suite fails with the change"; tail -5 /tmp/benign-suite.log; exit 3; }
+W="$(mktemp -d /tmp/benign-XXXXXX)"; rmdir "$W"
+git -C /repo worktree add -q --detach "$W" HEAD || { echo "worktree"; exit 2; }
+trap 'git -C /repo worktree remove --force "$W" >/dev/null 2>&1; rm -rf "$W"' EXIT
+git -C "$W" apply "$src/patch.diff" || { echo "BENIGN-REJECT $id: patch does not apply"; exit 3; }
+(cd "$W" && go test -count=1 ./... >"$W/.suite.log" 2>&1) || { echo "BENIGN-REJECT $id: repository suite fails with the change"; tail -5 "$W/.suite.log"; exit 3; }
+rm -f "$W/.suite.log"
 mkdir -p "$out"; cp "$src/patch.diff" "$out/"; [ -f "$src/notes.md" ] && cp "$src/notes.md" "$out/"
 res="{"
 bad=0
 for p in C01 C02 C03 C05 C08 C09 C11 C12 C14 C15 C16 C17 C18 C19; do
-  (cd /verif && ./run.sh $p quick > /tmp/benign-$p.log 2>&1); rc=$?
-  sig="$(grep -m1 '^violation:' /tmp/benign-$p.log | cut -c1-200)"
+  E="$(mktemp -d /tmp/benign-ev-XXXXXX)"
+  (cd /verif && VERIF_REPO="$W" VERIF_EVIDENCE_DIR="$E" ./run.sh $p quick > "$E/log" 2>&1); rc=$?
+  sig="$(grep -m1 '^violation:' "$E/log" | cut -c1-200)"
   echo "$id $p exit=$rc $sig"
-  [ $rc -ne 0 ] && { bad=1; mkdir -p "$out/alarms"; grep -v '^KNOWN' /tmp/benign-$p.log | tail -40 > "$out/alarms/$p.log"; }
+  [ $rc -ne 0 ] && { bad=1; mkdir -p "$out/alarms"; grep -v '^KNOWN' "$E/log" | tail -40 > "$out/alarms/$p.log"; }
+  rm -rf "$E"
   res="$res\"$p\": $rc, "
 done
 res="${res%, }}"
